@@ -64,11 +64,23 @@ impl SignatureConfig {
             && c.hashed_subpackets@.len() == 0 && c.unhashed_subpackets@.len() == 0
     { unimplemented!() }
 }
-//@trusted T4 SubpacketConfig::to_subpackets (builder.rs:158) returns the (hashed, unhashed) subpacket lists; their content is not looked into here
-impl SubpacketConfig {
+//@trusted T7 SubpacketData (src/packet/signature/subpacket.rs) is reduced to the three variants SubpacketConfig::to_subpackets builds (all others: Other); Subpacket::regular(data) = Ok(p) is a non-critical subpacket carrying exactly `data` (sp_data / sp_critical; the length field is U60s' subject); Timestamp::now() is the current time; Vec<Subpacket>::clone copies the elements
+pub enum SubpacketData { IssuerFingerprint(Fingerprint), SignatureCreationTime(Timestamp), IssuerKeyId(KeyId), Other }
+pub uninterp spec fn sp_data(p: Subpacket) -> SubpacketData;
+pub uninterp spec fn sp_critical(p: Subpacket) -> bool;
+impl Subpacket {
     #[verifier::external_body]
-    pub fn to_subpackets(&self, signer: &dyn SigningKey) -> (r: errors::Result<(Vec<Subpacket>, Vec<Subpacket>)>)
+    pub fn regular(data: SubpacketData) -> (r: errors::Result<Subpacket>)
+        ensures r matches Ok(p) ==> sp_data(p) == data && !sp_critical(p)
     { unimplemented!() }
+}
+impl Clone for Subpacket {
+    #[verifier::external_body]
+    fn clone(&self) -> (r: Subpacket) ensures r == *self { unimplemented!() }
+}
+impl Timestamp {
+    #[verifier::external_body]
+    pub fn now() -> (r: Timestamp) { unimplemented!() }
 }
 
 // ---- one-pass signature packets -------------------------------------------------------------------------
